@@ -34,7 +34,9 @@ class C24(Property):
     drivers = ["Drivers/C24.lean"]
     translators = [cmdtmpl.generate]
     quick_budget_s = 900
+    thorough_budget_s = 3000
     op_timeout = 8
+    confirm_timeout = 90
     rule = ("random trees (names with blanks, quotes, $, backticks, glob characters, unicode, leading dashes, newlines; symlinks; contents with "
             "leading/trailing whitespace) are created twice; random sequences of the 16 path operations are executed through LocalStreamFlowPath on "
             "one copy and through RemoteStreamFlowPath over a persistent-sh connector (MiniConnector) on the other; after every operation the "
@@ -158,19 +160,41 @@ class C24(Property):
             from sfv.rt.shfake import kill_leftovers
             try:
                 pre = snapshot(lroot)
+                pre_copy = os.path.join(base, "pre")
                 for op in plan:
                     holder["conn"].commands.clear()
+                    shutil.rmtree(pre_copy, ignore_errors=True)
+                    subprocess.run(["cp", "-a", lroot, pre_copy], check=True, timeout=60)
                     lres = await apply(lpath, lroot, op)
                     task = aio.ensure_future(apply(rpath, rroot, op))
                     done, _ = await aio.wait({task}, timeout=self.op_timeout)
                     if not done:
                         task.cancel()
-                        rres = ["hang"]
-                        # the persistent shell is stuck: kill it and go on with a fresh connector
+                        # the persistent shell is stuck — or the machine is just slow: kill it, restore the remote tree and CONFIRM the
+                        # time-out by running this single operation again, alone, on a fresh shell with a much larger bound
                         kill_leftovers()
                         holder["conn"] = MiniConnector("c24remote")
                         context.deployment_manager.deployments_map["c24remote"] = holder["conn"]
-                        cmds = []
+                        shutil.rmtree(rroot, ignore_errors=True)
+                        subprocess.run(["cp", "-a", pre_copy, rroot], check=True, timeout=60)
+                        # hangs that are known defects (walk over a sub-directory, an unquoted path with shell-special characters) need no
+                        # confirmation; any other time-out does
+                        expected = op["op"] == "walk" or (not self.op_quoted(op["op"]) and not (
+                            is_safe(os.path.join(rroot, op["path"])) and is_safe(str(op.get("args", {}).get("target", "x")))))
+                        task = aio.ensure_future(apply(rpath, rroot, op))
+                        done, _ = await aio.wait({task}, timeout=2 if expected else self.confirm_timeout)
+                        if done:
+                            ctx.count("slow-operation-confirmed-not-a-hang")
+                            rres = task.result()
+                            cmds = list(holder["conn"].commands)
+                        else:
+                            task.cancel()
+                            rres = ["hang"]
+                            kill_leftovers()
+                            holder["conn"] = MiniConnector("c24remote")
+                            context.deployment_manager.deployments_map["c24remote"] = holder["conn"]
+                            cmds = []
+                            done = set()
                     else:
                         rres = task.result()
                         cmds = list(holder["conn"].commands)
@@ -201,7 +225,7 @@ class C24(Property):
                     pass
 
         try:
-            run_watchdog(go, 60 + self.op_timeout * len(plan))
+            run_watchdog(go, 120 + (self.op_timeout + self.confirm_timeout) * len(plan))
         except Hang as e:
             ctx.fail("sequence:hang", f"sequence {seq_seed} did not finish: {e}", {"op": "sequence", "tame": tame, "seq_seed": seq_seed, "upto": len(plan)})
         finally:
@@ -403,6 +427,8 @@ class C24(Property):
                 return "glob:remote-splits-results-on-whitespace"
             if any(c in rel for c in "*?[]"):
                 return "glob:local-treats-path-as-pattern"
+            if any(c in str(a.get("pattern", "")) for c in "?[") and any(not k.isascii() for k in lsnap):
+                return "glob:question-mark-matches-bytes-remotely-characters-locally"
             return "glob:differs"
         if name == "resolve":
             return "resolve:differs"
@@ -447,7 +473,9 @@ class C24(Property):
                 t = os.path.normpath(os.path.join(os.path.dirname(k), v[1]))
                 if t.startswith("..") or os.path.isabs(v[1]):
                     return  # a link leaving the tree: outside the model
-                entries.append(f"l:{hx(k)}:{hx(t) if t != '.' else '-'}")
+                if pre.get(t, ("",))[0] in ("d", "l") or t == ".":
+                    return  # links to directories / chains of links: outside the model (leaf links to files only)
+                entries.append(f"l:{hx(k)}:{hx(t)}:{len(v[1].encode())}")
         # file modes are not part of the snapshots: chmod is compared on the mode it sets, the others do not depend on modes
         entries = [e if isinstance(e, str) else f"f:{hx(e[1])}:{e[2]}:420" for e in entries]
         comps = rel
@@ -462,7 +490,9 @@ class C24(Property):
             else:
                 tpath = target
             base = os.path.basename(target)
-            line = f"fsl {'symlink' if name == 'symlink_to' else 'hardlink'} {hx(comps)} {hx(tpath)} - E " + " ".join(entries)
+            if name == "symlink_to" and pre.get(tpath, ("",))[0] in ("d", "l"):
+                return
+            line = f"fsl {'symlink' if name == 'symlink_to' else 'hardlink'} {hx(comps)} {hx(tpath)} {len(target.encode())} E " + " ".join(entries)
 
             def kinds(res, snap):
                 if res == ["error"]:
